@@ -456,6 +456,13 @@ def _decide(ob, tier, res):
                 if when is not None:
                     extra += [enc.tr(when), enc.defined(when)]
                 res['distinct_claims'].append(hashlib.sha1(str(zc).encode()).hexdigest()[:10])
+                if when is not None:
+                    # cheap pre-check: is the claim's precondition reachable on this path at all?
+                    pre = smt.solve(enc, zbase + extra[1:], min(ob.timeout_s, 10), label=ob.id + ':' + label + ':when', want_model=False)
+                    if pre.status == 'unsat':
+                        res['discharged'] += 1
+                        res['vacuous_when'] = res.get('vacuous_when', 0) + 1
+                        continue
                 v = smt.solve(enc, zbase + extra + [z3not(zc)], ob.timeout_s, label=ob.id + ':' + label)
             except NotEncodable as e:
                 res['inconclusive'].append({'label': label, 'reason': 'not encodable: %s' % e})
@@ -473,6 +480,42 @@ def _decide(ob, tier, res):
                 _handle_witness(ob, enc, c, ct, zc, zbase + extra, v, label, res, cache)
     if not any_reachable:
         raise RuntimeError('vacuous obligation: no path is reachable under the domain')
+    # cross-path claims (e.g. continuity across a branch): the harness gets every returning
+    # path's (condition, outputs) and yields (label, [assumption Terms], claim Term, numeric_check)
+    cross = getattr(ob, 'cross', None)
+    if cross is not None:
+        good = [(T.land(*p.pc) if p.pc else T.TRUE, p.value) for p in paths if p.exc is None]
+        for label, assume, ct, numcheck in cross(good, mk.vals):
+            res['claims'] += 1
+            try:
+                zb = [enc.tr(t) for t in dom + list(assume)] + [enc.defined(t) for t in dom + list(assume)]
+                zc = enc.tr(ct)
+                res['distinct_claims'].append(hashlib.sha1(str(zc).encode()).hexdigest()[:10])
+                v = smt.solve(enc, zb + [enc.defined(ct), z3not(zc)], ob.timeout_s, label=ob.id + ':' + label)
+            except NotEncodable as e:
+                res['inconclusive'].append({'label': label, 'reason': 'not encodable: %s' % e})
+                continue
+            if len(res['samples']) < 4:
+                res['samples'].append({'obligation': ob.id, 'claim': label, 'assertion': T.show(ct, 300),
+                                       'assuming': [T.show(a, 120) for a in assume][:4],
+                                       'verdict': v.status, 'seconds': round(v.seconds, 3)})
+            if v.status == 'unsat':
+                res['discharged'] += 1
+            elif v.status == 'unknown':
+                res['inconclusive'].append({'label': label, 'reason': 'solver: unknown (%s) after %.0fs' % (v.reason, v.seconds)})
+            else:
+                env = {k: val for k, val in frac_env(v.model).items() if '!' not in k and '#' not in k}
+                try:
+                    rep = numcheck(env) if numcheck is not None else {'reproduced': False, 'detail': 'no numeric replay for this cross-path claim'}
+                except Exception as e:
+                    rep = {'reproduced': False, 'detail': 'replay raised %s: %s' % (type(e).__name__, e)}
+                entry = {'obligation': ob.id, 'label': label, 'claim': label, 'assertion': T.show(ct, 400),
+                         'witness': {k: str(val) for k, val in v.model.items() if '!' not in k},
+                         'witness_float': env, 'replay': rep}
+                if rep.get('reproduced'):
+                    res['violations'].append(entry)
+                else:
+                    res['inconclusive'].append({'label': label, 'reason': 'solver witness did not reproduce on the real code: %s' % rep.get('detail', '')})
 
 
 def z3not(z):
@@ -556,17 +599,38 @@ def _validate(ob, enc, out, model, res, cache, p):
 def _robust(t, env):
     """branch atom evaluates with a margin at env (so the float run takes the same branch)"""
     if t.op == 'not':
-        return _robust(t.args[0], env)
+        if not _margin(t.args[0], env):
+            return False
+    elif t.op in ('and', 'or'):
+        if not all(_margin(a, env) for a in t.args):
+            return False
+    elif not _margin(t, env):
+        return False
+    try:
+        return bool(T.evalf(t, env))
+    except Exception:
+        return False
+
+
+def _margin(t, env):
+    if t.op == 'not':
+        return _margin(t.args[0], env)
     if t.op in ('and', 'or'):
-        return all(_robust(a, env) for a in t.args)
+        return all(_margin(a, env) for a in t.args)
     if t.op in ('lt', 'le', 'eq'):
         try:
             a = T.evalf(t.args[0], env)
             b = T.evalf(t.args[1], env)
         except Exception:
             return False
-        return abs(a - b) > 1e-9 * max(abs(a), abs(b), 1e-12)
-    return True
+        if not abs(a - b) > 1e-9 * max(abs(a), abs(b), 1e-12):
+            return False
+    # the atom must also be TRUE at env under the true transcendental functions (a model may
+    # realise free atoms inconsistently with the real functions)
+    try:
+        return bool(T.evalf(t, env))
+    except Exception:
+        return False
 
 
 def _handle_witness(ob, enc, c, ct, zc, zbase, v, label, res, cache):
@@ -630,3 +694,68 @@ def replay_claim(ob, env, label, cache=None):
     if worst is None:
         return {'reproduced': False, 'detail': 'claim %s not produced on the concrete path' % label}
     return {'reproduced': bool(worst[0]), 'rel_residual': worst[1], 'detail': worst[2]}
+
+
+# =============================================================================== continuity helper
+
+def closure(t):
+    """topological closure of a path condition: strict comparisons become non-strict"""
+    op = t.op
+    if op == 'lt':
+        return T.le(*t.args)
+    if op in ('le', 'eq', 'true', 'false', 'bvar'):
+        return t
+    if op == 'and':
+        return T.land(*[closure(a) for a in t.args])
+    if op == 'or':
+        return T.lor(*[closure(a) for a in t.args])
+    if op == 'not':
+        a = t.args[0]
+        if a.op == 'le':            # not (x <= y) == x > y  ->  x >= y
+            return T.le(a.args[1], a.args[0])
+        if a.op == 'lt':            # not (x < y) == x >= y
+            return T.le(a.args[1], a.args[0])
+        if a.op == 'eq':
+            return T.TRUE
+        if a.op == 'and':
+            return T.lor(*[closure(T.lnot(x)) for x in a.args])
+        if a.op == 'or':
+            return T.land(*[closure(T.lnot(x)) for x in a.args])
+        if a.op == 'not':
+            return closure(a.args[0])
+        return t
+    return t
+
+
+def continuity_claims(ob, paths, field, point_vars, numeric_eval, extra_assume=()):
+    """For every pair of returning paths: wherever the closures of the two path conditions
+    meet, the two branch formulas of `field' agree.  numeric_eval(env) -> float evaluates the
+    public API (used to replay a witness: values at points displaced by +-1e-7 around it)."""
+    out = []
+    terms = []
+    for cond, o in paths:
+        v = o[field] if not hasattr(o, 'get') or field in o else None
+        terms.append(term_of(v))
+    for i in range(len(paths)):
+        for j in range(i + 1, len(paths)):
+            if terms[i] is terms[j]:
+                continue
+            assume = [closure(paths[i][0]), closure(paths[j][0])] + list(extra_assume)
+
+            def chk(env, point_vars=point_vars):
+                vals = []
+                for pv in point_vars:
+                    for sgn in (-1.0, 1.0):
+                        e2 = dict(env)
+                        e2[pv] = env[pv] + sgn * 1e-7 * max(1.0, abs(env[pv]))
+                        try:
+                            vals.append(float(numeric_eval(e2)))
+                        except Exception:
+                            pass
+                if len(vals) < 2:
+                    return {'reproduced': False, 'detail': 'could not evaluate near the witness'}
+                jump = max(vals) - min(vals)
+                sc = max(max(abs(v) for v in vals), 1e-12)
+                return {'reproduced': bool(jump > 1e-4 * sc), 'detail': 'values within 1e-7 of the witness span [%.12g, %.12g]' % (min(vals), max(vals))}
+            out.append(('continuity of %s across branches %d|%d' % (field, i, j), assume, T.eq(terms[i], terms[j]), chk))
+    return out
